@@ -146,7 +146,9 @@ func checkC19(t *Trial, ctx *Ctx) *Failure {
 			if t.Params == nil {
 				t.Params = map[string]string{}
 			}
-			t.Params["only"] = strconv.Itoa(i)
+			// keep only the baseline and the failing run in the replay file
+			t.Runs = []RunCfg{t.Runs[0], t.Runs[i]}
+			t.Params["only"] = "1"
 			return &Failure{Class: fmt.Sprintf("C19/%s{%s,%s,%s}", what, t.Kind, f.Kind, where),
 				Detail: fmt.Sprintf("command form %s, fault %s on %q at call %d (of %d out / %d file writes): %s\n%s", t.Kind, f.Kind, f.Dest, f.K, wOut, wFiles, detail, res.Describe())}
 		}
